@@ -71,7 +71,7 @@ static void run(int tier, int prog) {
   MV_CHECK(got_n == n && got_sum == n * (n + 1) / 2, "items lost or duplicated: got %d items summing to %d of %d", got_n, got_sum, n);
   MV_CHECK(myth_felock_status(&fe) == 0, "status %d at the end", myth_felock_status(&fe));
   mv_obs("got=%d", got_n);
-  myth_felock_destroy(&fe);
+  h_felock_epilogue(&fe, prog & 1);
   mv_finish();
 }
 static uint64_t cover_required(int tier) { (void)tier; return 0; }
